@@ -286,6 +286,32 @@ def mk_nullspace(m, n, rank):
     return case, setup
 
 
+def mk_nullspace_auto(m, n, rank):
+    """dim=None: the dimension is derived from the singular values (tolerance idealised: rank = number of non-zero ones)"""
+    def setup():
+        from symgeo import symnp
+        symnp.SVD_RANK["rank"] = rank
+
+    def case(ctx, seed=0):
+        from geometer.utils import null_space, orth
+        L = ctx.reals("l", m, rank)
+        Rt = ctx.reals("r", rank, n)
+        A = np.matmul(L, Rt) if not ctx.symbolic else L @ Rt
+        if not ctx.symbolic:
+            ctx.assume(np.linalg.matrix_rank(A) == rank)
+        N = null_space(A)
+        ctx.require("ns_auto_shape", tuple(N.shape) == (n, n - rank))
+        if n - rank:
+            Am, Nm = R.mat(A), R.mat(N)
+            P = R.matmul(Am, Nm)
+            for i in range(m):
+                for j in range(n - rank):
+                    ctx.require(f"A.N_{i}{j}", ctx.eq(P[i][j], 0))
+        Q = orth(A)
+        ctx.require("orth_auto_shape", tuple(Q.shape) == (m, rank))
+    return case, setup
+
+
 def cases(tier, seed):
     cs = []
     def add(name, fn, **kw):
@@ -305,7 +331,7 @@ def cases(tier, seed):
         add(f"adj4_b64_{t}", mk_adj(4, 64, cplx), tiers=("quick", "thorough") if not cplx else ("thorough",))
         add(f"adj5_b1_{t}", mk_adj(5, 1, cplx), tiers=("thorough",))
         add(f"inv2_b64_{t}", mk_inv(2, 64, cplx))
-        add(f"inv3_b64_{t}", mk_inv(3, 64, cplx))
+        add(f"inv3_b64_{t}", mk_inv(3, 64, cplx), tiers=("quick", "thorough") if not cplx else ())
         add(f"inv4_b64_{t}", mk_inv(4, 64, cplx), tiers=("thorough",))
         add(f"inv3_b1_{t}", mk_inv(3, 1, cplx), tiers=("thorough",))
     for shape, axis, tg in (((2,), None, "v2_none"), ((3,), None, "v3_none"), ((3,), -1, "v3_m1"), ((4,), 0, "v4_0"),
@@ -322,4 +348,7 @@ def cases(tier, seed):
     for (m, n, r) in ((1, 3, 1), (2, 3, 2), (2, 4, 2), (1, 2, 1)):
         fn, setup = mk_nullspace(m, n, r)
         add(f"nullspace_{m}x{n}_r{r}", fn, setup=setup, tiers=("quick", "thorough") if (m, n) in ((1, 3), (1, 2)) else ("thorough",))
+    for (m, n, r) in ((2, 2, 2),):
+        fn, setup = mk_nullspace_auto(m, n, r)
+        add(f"nullspace_auto_{m}x{n}_r{r}", fn, setup=setup)
     return cs
